@@ -133,6 +133,12 @@ var knownUnsupported = map[string]string{
 	"faucetsc.UserNode":        "time.Time (msgpack extension 5)",
 }
 
+// declared fields that the generated code does not write, accepted with the reason; any other
+// one fails closed (a stored field silently missing from the encoding forks state)
+var knownUnserialized = map[string]string{
+	"stakepool.UserPoolStat.Pools": "deprecated REST view (map keyed by datastore.Key is skipped by the generator); not stored in state",
+}
+
 type unsupported struct{ why string }
 
 var genRe = regexp.MustCompile(`(?m)^func \(z \*?([A-Za-z0-9_]+)\) MarshalMsg\(`)
@@ -147,6 +153,69 @@ type pkgInfo struct {
 	wrappers   map[string]map[string]string // wrapper type -> version tag -> Go type (entitywrapper.RegisterWrapper)
 	wrapName   map[string]string            // wrapper type -> TypeName()
 	shimCopy   map[string]map[string]bool   // shim type -> fields its UnmarshalMsg copies back from the shadow ("*" = all)
+	genSrc     map[string]string            // type -> text of its generated MarshalMsg
+}
+
+var (
+	hdrRe = regexp.MustCompile(`// map header, size (\d+)`)
+	keyRe = regexp.MustCompile(`// string "([^"]*)"`)
+)
+
+// Unserialized lists struct fields that the type declares (exported, not tagged "-") but the
+// generated MarshalMsg does not write (the generator skipped a field type it cannot handle).
+type Unser struct {
+	Type  string `json:"type"`
+	Field string `json:"field"`
+	Key   string `json:"key"`
+}
+
+var unserialized []Unser
+
+// wireFields keeps the fields that the generated MarshalMsg of pkg.typ really writes; fails closed
+// when the generated code and the declared fields cannot be reconciled.
+func wireFields(pi *pkgInfo, typ string, fs []Field) []Field {
+	src, ok := pi.genSrc[typ]
+	if !ok {
+		return fs
+	}
+	m := hdrRe.FindStringSubmatch(src)
+	if m == nil {
+		die("%s.%s: generated MarshalMsg of a struct without a map header comment", pi.pkg.Name(), typ)
+	}
+	n := 0
+	fmt.Sscanf(m[1], "%d", &n)
+	keys := map[string]bool{}
+	for _, k := range keyRe.FindAllStringSubmatch(src, -1) {
+		keys[k[1]] = true
+	}
+	if n == len(fs) {
+		for _, f := range fs {
+			if !keys[f.Key] {
+				die("%s.%s: key %q derived from the type is not written by the generated MarshalMsg", pi.pkg.Name(), typ, f.Key)
+			}
+		}
+		return fs
+	}
+	var out []Field
+	for _, f := range fs {
+		if keys[f.Key] {
+			out = append(out, f)
+		} else if ast.IsExported(f.Go) {
+			u := Unser{pi.pkg.Name() + "." + typ, f.Go, f.Key}
+			dup := false
+			for _, x := range unserialized {
+				dup = dup || x == u
+			}
+			if !dup {
+				unserialized = append(unserialized, u)
+			}
+		} // unexported fields are written only by files generated with -unexported
+	}
+	if len(out) != n {
+		die("%s.%s: generated MarshalMsg writes %d fields, the type declares %d, %d of them found in the generated code",
+			pi.pkg.Name(), typ, n, len(fs), len(out))
+	}
+	return out
 }
 
 // scanPkg finds the delegation shims and the entitywrapper registrations of a package (syntax).
@@ -377,14 +446,17 @@ func derive(t types.Type, stack []string, unexp bool) (s *Schema) {
 			f := x.Field(i)
 			tag := reflect.StructTag(x.Tag(i))
 			key := f.Name()
-			if m, ok := tag.Lookup("msg"); ok {
+			m, ok := tag.Lookup("msg")
+			if !ok || m == "" { // the generator falls back to the msgpack tag
+				m, ok = tag.Lookup("msgpack")
+			}
+			if ok {
 				name := strings.Split(m, ",")[0]
 				if name == "-" {
 					continue
 				}
-				if strings.Contains(m, ",") {
-					panic(unsupported{"msg tag option " + m})
-				}
+				// tag options (omitempty, ...) are not honoured by this generator version: the
+				// generated code has no omission masks; wireFields reconciles against it
 				if name != "" {
 					key = name
 				}
@@ -483,7 +555,13 @@ func derive(t types.Type, stack []string, unexp bool) (s *Schema) {
 				un = false
 			}
 		}
-		return derive(x.Underlying(), append(stack, full), un)
+		res := derive(x.Underlying(), append(stack, full), un)
+		if res.K == "struct" && o.Pkg() != nil {
+			if pi := pkgs[o.Pkg().Path()]; pi != nil && pi.gen[o.Name()] {
+				res.Fields = wireFields(pi, o.Name(), res.Fields)
+			}
+		}
+		return res
 	case *types.Interface:
 		panic(unsupported{"interface type"})
 	}
@@ -550,6 +628,7 @@ func main() {
 	// packages with generated code
 	var paths []string
 	dirs := map[string]map[string]bool{}
+	genText := map[string]map[string]string{}
 	unexp := map[string]bool{}
 	_ = filepath.Walk(root, func(p string, fi os.FileInfo, err error) error {
 		if err != nil || fi.IsDir() || !strings.HasSuffix(p, "_gen.go") || strings.HasSuffix(p, "_gen_test.go") {
@@ -569,6 +648,18 @@ func main() {
 		}
 		for _, m := range ms {
 			dirs[d][m[1]] = true
+		}
+		if genText[d] == nil {
+			genText[d] = map[string]string{}
+		}
+		txt := string(b)
+		for _, loc := range genRe.FindAllStringSubmatchIndex(txt, -1) {
+			end := strings.Index(txt[loc[1]:], "\nfunc ")
+			body := txt[loc[0]:]
+			if end >= 0 {
+				body = txt[loc[0] : loc[1]+end]
+			}
+			genText[d][txt[loc[2]:loc[3]]] = body
 		}
 		return nil
 	})
@@ -614,7 +705,7 @@ func main() {
 		if pkg == nil {
 			die("type check of %s failed", path)
 		}
-		pkgs[path] = &pkgInfo{lp: lp, pkg: pkg, files: files, gen: dirs[lp.Dir], unexported: unexp[path]}
+		pkgs[path] = &pkgInfo{lp: lp, pkg: pkg, files: files, gen: dirs[lp.Dir], unexported: unexp[path], genSrc: genText[lp.Dir]}
 		scanPkg(pkgs[path])
 	}
 	// NOTE: a Named type seen through export data of another package is a different object from
@@ -672,7 +763,7 @@ func main() {
 						e.Unsup = u.why
 					}
 				}()
-				e.Schema = derive(obj.Type().Underlying(), []string{path + "." + n}, pi.unexported)
+				e.Schema = derive(obj.Type(), nil, pi.unexported)
 			}()
 			entries = append(entries, e)
 		}
@@ -695,8 +786,16 @@ func main() {
 			fmt.Printf("UNSUPPORTED %s: %s\n", e.Name, e.Unsup)
 			continue
 		}
-		if why, ok := knownUnsupported[e.Name]; !ok || why != e.Unsup {
+		if _, ok := knownUnsupported[e.Name]; !ok {
 			fmt.Fprintf(os.Stderr, "msgpschema: %s is outside the universe (%s) and not in the allow-list\n", e.Name, e.Unsup)
+			bad++
+		}
+	}
+	for _, u := range unserialized {
+		if discover {
+			fmt.Printf("UNSERIALIZED %s.%s\n", u.Type, u.Field)
+		} else if _, ok := knownUnserialized[u.Type+"."+u.Field]; !ok {
+			fmt.Fprintf(os.Stderr, "msgpschema: field %s.%s is declared but not written by the generated MarshalMsg (stale or unsupported generated code)\n", u.Type, u.Field)
 			bad++
 		}
 	}
@@ -754,6 +853,12 @@ func main() {
 	}
 	b.WriteString("(* schemas containing a type whose hand-written UnmarshalMsg copies nothing back from its shadow value *)\n")
 	b.WriteString("Definition msgp_lossy : list string := [" + strings.Join(lossy, "; ") + "].\n\n")
+	var us []string
+	for _, u := range unserialized {
+		us = append(us, "("+coqStr(u.Type)+", "+coqStr(u.Key)+")")
+	}
+	b.WriteString("(* declared struct fields that the generated MarshalMsg does not write: (type, key) *)\n")
+	b.WriteString("Definition msgp_unserialized : list (string * string) := [" + strings.Join(us, "; ") + "].\n\n")
 	b.WriteString("(* types with generated code that the universe cannot express (allow-listed in the translator) *)\n")
 	b.WriteString("Definition msgp_unsupported : list (string * string) := [\n  " + strings.Join(un, ";\n  ") + "].\n")
 	out := "/verif/coq/Gen/MsgpSchema.v"
@@ -763,7 +868,7 @@ func main() {
 		out, jout, rout = "/var/tmp/vs/codec-MsgpSchema.v", "/var/tmp/vs/codec-msgpschema.json", "/var/tmp/vs/codec-registry_gen.go"
 	}
 	writeIfChanged(out, b.String())
-	js, _ := json.MarshalIndent(entries, "", " ")
+	js, _ := json.MarshalIndent(map[string]interface{}{"entries": entries, "unserialized": unserialized}, "", " ")
 	writeIfChanged(jout, string(js)+"\n")
 	// ---- Go registry of exported types ----
 	var g strings.Builder
